@@ -170,6 +170,18 @@ func runC15(rc *RunCtx) {
 					all = append(all, pre)
 					reflected := append([]byte(nil), first.Peer().Wrote...)
 					c.want, c.probe, c.complete = "ERR_REPLAY_SERVER", true, true
+					if G.Draw(2) == 0 {
+						// the same recording reflected before (the history remembers salts):
+						// this one is a reflected replay all the same, and is named so (C08:
+						// "refused as a reflected replay")
+						again := dial()
+						writeSegmented(G, again, reflected, 3)
+						again.CloseWrite()
+						readAll(again)
+						again.Close()
+						all = append(all, &c15conn{k: -1, cause: "replay-server(first of two)", want: "ERR_REPLAY_SERVER", probe: true, complete: true, key: c.key, c: again, done: true})
+						c.cause = "replay-server(second of two)"
+					}
 					c.c = dial()
 					writeSegmented(G, c.c, reflected, 3)
 					c.c.CloseWrite()
